@@ -104,6 +104,10 @@ impl ArrivalBound for ArrivalCurvePrefix {
     }
 
     fn steps_iter<'a>(&'a self) -> Box<dyn Iterator<Item = Duration> + 'a> {
+        if self.steps.is_empty() {
+            // no arrivals at all, so there is nothing to repeat
+            return Box::new(iter::empty());
+        }
         let horizon = self.horizon;
         Box::new(
             iter::once(Duration::zero()).chain((0..).flat_map(move |cycle: u64| {
